@@ -56,8 +56,13 @@ func H_C20_Sequence() {
 			if shut {
 				vExpectPanic("leave after shutdown") // documented
 			}
+			t0 := vNow()
 			err := m.Leave(10 * time.Millisecond)
-			_ = err
+			vAssert(vNow().Sub(t0) <= 10*time.Millisecond, "c20.seq.leave-never-blocks-past-timeout")
+			if left {
+				// idempotent: once we have left (or a Leave is under way) another call returns nil at once
+				vAssert(err == nil && vNow().Sub(t0) == 0, "c20.seq.leave-again-returns-at-once")
+			}
 			left = true
 		case 1:
 			vAssert(m.Shutdown() == nil, "c20.seq.shutdown-nil")
